@@ -64,9 +64,9 @@ Model/Shutdown.vos Model/Shutdown.vok Model/Shutdown.required_vos: Model/Shutdow
 Model/Lockset.vo Model/Lockset.glob Model/Lockset.v.beautified Model/Lockset.required_vo: Model/Lockset.v 
 Model/Lockset.vio: Model/Lockset.v 
 Model/Lockset.vos Model/Lockset.vok Model/Lockset.required_vos: Model/Lockset.v 
-Model/Conc.vo Model/Conc.glob Model/Conc.v.beautified Model/Conc.required_vo: Model/Conc.v Base/Prelude.vo
-Model/Conc.vio: Model/Conc.v Base/Prelude.vio
-Model/Conc.vos Model/Conc.vok Model/Conc.required_vos: Model/Conc.v Base/Prelude.vos
+Model/Conc.vo Model/Conc.glob Model/Conc.v.beautified Model/Conc.required_vo: Model/Conc.v Base/Prelude.vo Base/Wrap.vo Base/Bytes.vo Model/Hash.vo Model/Strategy.vo
+Model/Conc.vio: Model/Conc.v Base/Prelude.vio Base/Wrap.vio Base/Bytes.vio Model/Hash.vio Model/Strategy.vio
+Model/Conc.vos Model/Conc.vok Model/Conc.required_vos: Model/Conc.v Base/Prelude.vos Base/Wrap.vos Base/Bytes.vos Model/Hash.vos Model/Strategy.vos
 Proofs/LimiterProofs.vo Proofs/LimiterProofs.glob Proofs/LimiterProofs.v.beautified Proofs/LimiterProofs.required_vo: Proofs/LimiterProofs.v Base/Prelude.vo Model/Limiter.vo
 Proofs/LimiterProofs.vio: Proofs/LimiterProofs.v Base/Prelude.vio Model/Limiter.vio
 Proofs/LimiterProofs.vos Proofs/LimiterProofs.vok Proofs/LimiterProofs.required_vos: Proofs/LimiterProofs.v Base/Prelude.vos Model/Limiter.vos
@@ -88,6 +88,9 @@ Proofs/FailoverProofs.vos Proofs/FailoverProofs.vok Proofs/FailoverProofs.requir
 Proofs/AccountingProofs.vo Proofs/AccountingProofs.glob Proofs/AccountingProofs.v.beautified Proofs/AccountingProofs.required_vo: Proofs/AccountingProofs.v Base/Prelude.vo Base/Wrap.vo Base/Bytes.vo Model/Hash.vo Model/Strategy.vo Model/ClientIP.vo Model/Limiter.vo Model/Breaker.vo Model/LB.vo Proofs/StrategyProofs.vo Proofs/LBProofs.vo Proofs/FailoverProofs.vo
 Proofs/AccountingProofs.vio: Proofs/AccountingProofs.v Base/Prelude.vio Base/Wrap.vio Base/Bytes.vio Model/Hash.vio Model/Strategy.vio Model/ClientIP.vio Model/Limiter.vio Model/Breaker.vio Model/LB.vio Proofs/StrategyProofs.vio Proofs/LBProofs.vio Proofs/FailoverProofs.vio
 Proofs/AccountingProofs.vos Proofs/AccountingProofs.vok Proofs/AccountingProofs.required_vos: Proofs/AccountingProofs.v Base/Prelude.vos Base/Wrap.vos Base/Bytes.vos Model/Hash.vos Model/Strategy.vos Model/ClientIP.vos Model/Limiter.vos Model/Breaker.vos Model/LB.vos Proofs/StrategyProofs.vos Proofs/LBProofs.vos Proofs/FailoverProofs.vos
+Proofs/PickFlipProofs.vo Proofs/PickFlipProofs.glob Proofs/PickFlipProofs.v.beautified Proofs/PickFlipProofs.required_vo: Proofs/PickFlipProofs.v Base/Prelude.vo Base/Wrap.vo Base/Bytes.vo Model/Hash.vo Model/Strategy.vo Model/ClientIP.vo Model/Limiter.vo Model/Breaker.vo Model/LB.vo Model/Conc.vo Proofs/StrategyProofs.vo Proofs/LBProofs.vo Proofs/FailoverProofs.vo Proofs/ConcProofs.vo
+Proofs/PickFlipProofs.vio: Proofs/PickFlipProofs.v Base/Prelude.vio Base/Wrap.vio Base/Bytes.vio Model/Hash.vio Model/Strategy.vio Model/ClientIP.vio Model/Limiter.vio Model/Breaker.vio Model/LB.vio Model/Conc.vio Proofs/StrategyProofs.vio Proofs/LBProofs.vio Proofs/FailoverProofs.vio Proofs/ConcProofs.vio
+Proofs/PickFlipProofs.vos Proofs/PickFlipProofs.vok Proofs/PickFlipProofs.required_vos: Proofs/PickFlipProofs.v Base/Prelude.vos Base/Wrap.vos Base/Bytes.vos Model/Hash.vos Model/Strategy.vos Model/ClientIP.vos Model/Limiter.vos Model/Breaker.vos Model/LB.vos Model/Conc.vos Proofs/StrategyProofs.vos Proofs/LBProofs.vos Proofs/FailoverProofs.vos Proofs/ConcProofs.vos
 Proofs/AdminProofs.vo Proofs/AdminProofs.glob Proofs/AdminProofs.v.beautified Proofs/AdminProofs.required_vo: Proofs/AdminProofs.v Base/Prelude.vo Base/Bytes.vo Model/Strategy.vo Model/LB.vo Model/Admin.vo
 Proofs/AdminProofs.vio: Proofs/AdminProofs.v Base/Prelude.vio Base/Bytes.vio Model/Strategy.vio Model/LB.vio Model/Admin.vio
 Proofs/AdminProofs.vos Proofs/AdminProofs.vok Proofs/AdminProofs.required_vos: Proofs/AdminProofs.v Base/Prelude.vos Base/Bytes.vos Model/Strategy.vos Model/LB.vos Model/Admin.vos
@@ -160,9 +163,9 @@ Props/C07.vos Props/C07.vok Props/C07.required_vos: Props/C07.v Base/Prelude.vos
 Props/C08.vo Props/C08.glob Props/C08.v.beautified Props/C08.required_vo: Props/C08.v Base/Prelude.vo Model/Breaker.vo Proofs/BreakerProofs.vo
 Props/C08.vio: Props/C08.v Base/Prelude.vio Model/Breaker.vio Proofs/BreakerProofs.vio
 Props/C08.vos Props/C08.vok Props/C08.required_vos: Props/C08.v Base/Prelude.vos Model/Breaker.vos Proofs/BreakerProofs.vos
-Props/C06.vo Props/C06.glob Props/C06.v.beautified Props/C06.required_vo: Props/C06.v Base/Prelude.vo Base/Wrap.vo Model/Hash.vo Model/Strategy.vo Proofs/HashProofs.vo Proofs/StrategyProofs.vo
-Props/C06.vio: Props/C06.v Base/Prelude.vio Base/Wrap.vio Model/Hash.vio Model/Strategy.vio Proofs/HashProofs.vio Proofs/StrategyProofs.vio
-Props/C06.vos Props/C06.vok Props/C06.required_vos: Props/C06.v Base/Prelude.vos Base/Wrap.vos Model/Hash.vos Model/Strategy.vos Proofs/HashProofs.vos Proofs/StrategyProofs.vos
+Props/C06.vo Props/C06.glob Props/C06.v.beautified Props/C06.required_vo: Props/C06.v Model/Conc.vo Proofs/PickFlipProofs.vo Base/Prelude.vo Base/Wrap.vo Model/Hash.vo Model/Strategy.vo Proofs/HashProofs.vo Proofs/StrategyProofs.vo
+Props/C06.vio: Props/C06.v Model/Conc.vio Proofs/PickFlipProofs.vio Base/Prelude.vio Base/Wrap.vio Model/Hash.vio Model/Strategy.vio Proofs/HashProofs.vio Proofs/StrategyProofs.vio
+Props/C06.vos Props/C06.vok Props/C06.required_vos: Props/C06.v Model/Conc.vos Proofs/PickFlipProofs.vos Base/Prelude.vos Base/Wrap.vos Model/Hash.vos Model/Strategy.vos Proofs/HashProofs.vos Proofs/StrategyProofs.vos
 Props/C05.vo Props/C05.glob Props/C05.v.beautified Props/C05.required_vo: Props/C05.v Base/Prelude.vo Base/Wrap.vo Model/Hash.vo Model/Strategy.vo Proofs/StrategyProofs.vo
 Props/C05.vio: Props/C05.v Base/Prelude.vio Base/Wrap.vio Model/Hash.vio Model/Strategy.vio Proofs/StrategyProofs.vio
 Props/C05.vos Props/C05.vok Props/C05.required_vos: Props/C05.v Base/Prelude.vos Base/Wrap.vos Model/Hash.vos Model/Strategy.vos Proofs/StrategyProofs.vos
